@@ -573,6 +573,8 @@ class MiniEval:
                 return getattr(recv, f.attr)(*args, **kwargs)
             if isinstance(recv, tuple) and f.attr in ('index', 'count'):
                 return getattr(recv, f.attr)(*args, **kwargs)
+            if recv is dict and f.attr == 'fromkeys':
+                return dict.fromkeys(*args)
             raise Unsupported(f'method call .{f.attr} on {type(recv).__name__}')
         if isinstance(f, (ast.Call, ast.Subscript, ast.IfExp)):
             fv = self.expr(f, env)
